@@ -69,6 +69,15 @@ def check_table(F, where, t):
 
 
 def check_image(F, where, im):
+    start = len(F)
+    try:
+        _check_image(F, where, im)
+    finally:
+        for f in F[start:]:
+            f.setdefault("cls", type(im).__name__)
+
+
+def _check_image(F, where, im):
     cls = type(im).__name__
     for name in ("get_content_type", "get_caption", "get_description"):
         ok, v = call(F, f"{where}.{name}()", getattr(im, name))
@@ -458,8 +467,47 @@ def find_damaged_member(file_key, kinds=("image-number",)):
         if bad:
             return {"reproduced": True, "target": f"sharepoint2text extractor for {rel.split('.')[-1]}",
                     "inputs": {"fixture": "tests/resources/" + rel, "mutation": "CRC-32 of picture members flipped (local header + central directory)", "members": hit},
-                    "expected": "image numbers are positive integers", "observed": f"{bad[0]['where']}: {bad[0]['detail']}"}
+                    "expected": "every image: number >= 1, size_bytes == len(get_bytes()), accessors total", "observed": f"{bad[0]['where']}: {bad[0]['detail']}"}
     return {"reproduced": False, "note": "damaged picture members: interface honoured"}
+
+
+def garble_pictures(path, pred):
+    """The document with every picture member replaced by bytes of no known image format and every drawing extent (cx / cy,
+    svg:width / svg:height) zeroed: the readers have to fall back to whatever they do when dimensions are unknown."""
+    import re
+    src = zipfile.ZipFile(path)
+    buf = io.BytesIO()
+    hit = []
+    with zipfile.ZipFile(buf, "w", zipfile.ZIP_DEFLATED) as z:
+        for zi in src.infolist():
+            data = src.read(zi.filename)
+            if pred(zi.filename) and not zi.filename.endswith("/"):
+                data = b"\x00\x01not-an-image\x02" + bytes(range(40))
+                hit.append(zi.filename)
+            elif zi.filename.endswith(".xml") and ("drawing" in zi.filename or zi.filename in ("content.xml", "word/document.xml") or "slides/slide" in zi.filename):
+                data = re.sub(rb'\b(cx|cy)="\d+"', lambda m: m.group(1) + b'="0"', data)
+            z.writestr(zi, data)
+    return buf.getvalue(), hit
+
+
+def find_garbled_pictures(file_key, kinds=("accessor-raises",)):
+    for rel, pred, key in DAMAGED:
+        if key not in file_key and "data_types" not in file_key:
+            continue
+        f = os.path.join(RES, rel)
+        if not os.path.exists(f):
+            continue
+        try:
+            data, hit = garble_pictures(f, pred)
+            F = failures_of(data, f)
+        except Exception:  # noqa
+            continue
+        bad = [x for x in F if x["kind"] in kinds]
+        if bad:
+            return {"reproduced": True, "target": f"sharepoint2text extractor for {rel.split('.')[-1]}",
+                    "inputs": {"fixture": "tests/resources/" + rel, "mutation": "picture members replaced by bytes of no known image format, drawing extents zeroed", "members": hit},
+                    "expected": "every image: accessors total, number >= 1, size_bytes == len(get_bytes())", "observed": f"{bad[0]['where']}: {bad[0]['detail']}"}
+    return {"reproduced": False, "note": "garbled pictures: interface honoured"}
 
 
 def blip_stream():
@@ -712,6 +760,10 @@ def sweep(kinds=None, cls=None, fixtures_only=False):
             f = os.path.join(RES, rel)
             if os.path.exists(f):
                 docs.append((f, corrupt_crc(open(f, "rb").read(), pred)[0]))
+                try:
+                    docs.append((f, garble_pictures(f, pred)[0]))
+                except Exception:  # noqa
+                    pass
     for name, data in docs:
         for path in ("<same>", None):
             try:
@@ -721,16 +773,16 @@ def sweep(kinds=None, cls=None, fixtures_only=False):
             for x in F:
                 if kinds and x["kind"] not in kinds:
                     continue
-                if cls and x.get("cls") not in (None, cls):
+                if cls and x.get("cls") != cls:
                     continue
                 out.append(dict(x, file=name.replace(REPO + "/", ""), path_given=path is not None))
     return out
 
 
 # ---------------------------------------------------------------- metadata --
-def find_metadata(reader):
+def find_metadata(reader, strings=None):
     from replay import c04_meta
-    return c04_meta.find(reader)
+    return c04_meta.find(reader, strings)
 
 
 # -------------------------------------------------------------------- find --
@@ -780,27 +832,21 @@ def find(req):
         if "mbox_email_extractor" in ob:
             return find_mbox(fn, k)
         return {"reproduced": False, "note": "no crafted input for this decode site"}
-    if "-positive@" in ob:
-        r = find_damaged_member(ob)
-        if r["reproduced"]:
-            return r
-        rb = find_blip(ob)
-        if rb["reproduced"]:
-            return rb
+    if "/call-pre#" in ob and any(t in ob for t in ("-positive@", "size_bytes-is-len-of-payload", "-invariants@", "#store-", "class-used-as-a-value",
+                                                      "not-from-a-None-source")):
+        # image objects built at (or rewritten after) a constructor site: documents that reach the error branches (pictures that
+        # cannot be read, pictures of an unknown format without extents), a hand-built OfficeArt stream, then every fixture
+        kinds = ("image-number", "image-size", "bytes", "accessor-raises", "not-str")
+        for r in (find_damaged_member(ob, kinds), find_garbled_pictures(ob, kinds), find_blip(ob)):
+            if r["reproduced"]:
+                return r
         cls = ob.split("#")[1].split("-")[0]
-        s = sweep(kinds=("image-number",), cls=cls)
+        cls = cls if cls[:1].isupper() else None
+        s = sweep(kinds=kinds, cls=cls)
         if s:
-            return {"reproduced": True, "target": ob, "inputs": {"file": s[0]["file"]}, "expected": "image number >= 1", "observed": f"{s[0]['where']}: {s[0]['detail']}"}
-        return r
-    if "size_bytes-is-len-of-payload" in ob or "#store-" in ob:
-        r = find_blip(ob)
-        if r["reproduced"]:
-            return r
-        cls = ob.split("#")[1].split("-")[0] if "size_bytes" in ob else None
-        s = sweep(kinds=("image-size", "bytes", "image-number"), cls=cls)
-        if s:
-            return {"reproduced": True, "target": ob, "inputs": {"file": s[0]["file"]}, "expected": "size_bytes == len(payload)", "observed": f"{s[0]['where']}: {s[0]['detail']}"}
-        return {"reproduced": False, "note": "fixtures: every image reports the length of its payload"}
+            return {"reproduced": True, "target": ob, "inputs": {"file": s[0]["file"]}, "expected": "size_bytes == len(payload), number >= 1, accessors total",
+                    "observed": f"{s[0]['where']}: {s[0]['detail']}"}
+        return {"reproduced": False, "note": "damaged / garbled pictures, BLIP stream and fixtures: every image honours the interface"}
     if ".get_dim/" in ob:
         return find_table(ob.split("::")[1].split(".")[0])
     if ".get_bytes/" in ob:
@@ -810,7 +856,7 @@ def find(req):
     if "_odf_length_to_px" in ob or "length-helper" in ob or "OpenDocumentImage.get_metadata" in ob:
         return find_odf_length(ob.split("::")[1].split("/")[0])
     if "/metadata-copied" in ob or "metadata#" in ob:
-        return find_metadata(ob)
+        return find_metadata(ob, (hint or {}).get("strings"))
     if "data_types.py::" in ob and ("/raises" in ob or "/ensures#returns" in ob):
         q = ob.split("::")[1].split("/")[0]
         if "." in q:
